@@ -64,7 +64,7 @@ class State:
 
     def agg(self, comps):
         cfg = self.cfg
-        if not cfg["multi"]:
+        if not cfg.get("pmulti", cfg["multi"]):
             return -comps[0] if cfg["minimize"][0] else comps[0]
         return sum(-c if m else c for c, m in zip(comps, cfg["minimize"]))
 
@@ -137,7 +137,7 @@ def gen(H, tier):
         if H.draw(3) == 0:
             level = H.pick(alphabet)
         hist.append([float(level if j == 0 else H.pick(alphabet)) for j in range(k)])
-    return {"multi": multi, "k": k, "minimize": [bool(H.draw(2)) for _ in range(k)], "history": hist,
+    cfg = {"multi": multi, "k": k, "minimize": [bool(H.draw(2)) for _ in range(k)], "history": hist,
             "driver": H.weighted([("direct", 4), ("rs", 2), ("hc", 2), ("opo", 2), ("gp", 3), ("gp_eval", 2)]),
             "pre_evaluate": [bool(H.draw(4) == 3) for _ in range(12)],
             "pop": 2 + H.draw(7), "hc_n": 1 + H.draw(5), "budget": 1 + H.draw(min(n, 40)),
@@ -148,6 +148,12 @@ def gen(H, tier):
             "seeded_restart": bool(H.draw(5) == 4),
             "default_aggregate": bool(H.draw(2)),
             "resume": H.pick([None, None, None, "again", "rs", "hc", "opo", "gp"]), "resume_extra": H.draw(12)}
+    # cross pairing (round 8): a problem with several fitness components followed by a SINGLE-objective tracker, which the
+    # algorithms accept; "multi" keeps meaning the tracker's kind, "pmulti" is the problem's kind
+    cfg["pmulti"] = multi
+    if multi and H.draw(4) == 0:
+        cfg["multi"] = False
+    return cfg
 
 
 def run(ctx):
@@ -199,12 +205,15 @@ def run(ctx):
         cur[0].evaluated.append(st.agg(v))
         return [returned(x) for x in v]
 
-    if cfg["multi"]:
+    if cfg.get("pmulti", cfg["multi"]):
         if cfg["default_aggregate"]:
             problem = MultiObjectiveProblem(list(cfg["minimize"]), ff_multi)  # the library's own aggregate: sum, minimised ones negated
         else:
             problem = MultiObjectiveProblem(list(cfg["minimize"]), ff_multi, aggregate_fitness=(lambda comps: st.agg(comps)))
-        tracker = MultiObjectiveProgressTracker(problem, SequentialEvaluator(), recorders=[Probe(st)])
+        T0 = MultiObjectiveProgressTracker if cfg["multi"] else SingleObjectiveProgressTracker
+        tracker = T0(problem, SequentialEvaluator(), recorders=[Probe(st)])
+        if not cfg["multi"]:
+            ctx.stat("single_tracker_on_multi_component_problem")
     else:
         problem = SingleObjectiveProblem(ff_single, minimize=cfg["minimize"][0])
         tracker = SingleObjectiveProgressTracker(problem, SequentialEvaluator(), recorders=[Probe(st)])
@@ -212,7 +221,7 @@ def run(ctx):
     # the same Individual objects before the tracker sees them
     other = None
     if cfg["other_problem"]:
-        if cfg["multi"]:
+        if cfg.get("pmulti", cfg["multi"]):
             other = MultiObjectiveProblem([not m for m in cfg["minimize"]], ff_multi, aggregate_fitness=(lambda comps: -st.agg(comps)))
         else:
             other = SingleObjectiveProblem(ff_single, minimize=not cfg["minimize"][0])
